@@ -242,8 +242,13 @@ def run(tier, seed):
                    ('Prefixed(VarInt, Struct("a"/Int24ul, "s"/PascalString(Byte, "utf8")))', dict(a=5, s='hé')),
                    ('FixedSized(6, Struct("a"/Byte))', dict(a=1)), ('BitStruct("a"/BitsInteger(12), "b"/Nibble)', dict(a=5, b=1)),
                    ('Struct("c"/Const(b"MAGIC"), "v"/Float64b)', dict(v=1.5)), ('PrefixedArray(Byte, Int16ub)', [1, 2, 3]),
-                   ('NullTerminated(Bytes(3))', b'abc'), ('Struct("s"/CString("utf_16_le"), "n"/Byte)', dict(s='ab', n=1))]:
+                   ('NullTerminated(Bytes(3))', b'abc'), ('Struct("s"/CString("utf_16_le"), "n"/Byte)', dict(s='ab', n=1)),
+                   # tag-length-value (TruncDep): the payload is chosen by the tag and sized by the length
+                   ('Struct("t"/Byte, "n"/Byte, "v"/Switch(this.t, {1: Bytes(this.n), 2: Array(this.n, Int16ub)}, default=Pass), "f"/IfThenElse(this.t, VarInt, Byte))', dict(t=2, n=2, v=[258, 3], f=300)),
+                   ('Struct("t"/Byte, "n"/Byte, "v"/Switch(this.t, {1: Bytes(this.n), 2: Array(this.n, Int16ub)}, default=Pass), "f"/IfThenElse(this.t, VarInt, Byte))', dict(t=0, n=9, v=None, f=7)),
+                   ('Array(2, Struct("k"/VarInt, "b"/Switch(this.k, {0: Struct("n"/Int16ul, "d"/Bytes(this.n)), 300: Padded(4, Byte)}, default=Int32sb)))', [dict(k=0, b=dict(n=2, d=b'hi')), dict(k=300, b=7)])]:
         acc.check('truncation', src, obj=v)
+        acc.check('only_construct_errors', src, datas=[C.get(src).build(v)[:k] for k in range(0, 12)] + [bytes([b]) * 9 for b in (0, 1, 2, 255)], kw={})
     # stream faults: every k-th operation, four kinds, parse and build
     for src, obj in FAULT_SRCS:
         if 'lambda' in src:
@@ -291,8 +296,11 @@ def run(tier, seed):
              'canonical encodings of strict constructs (no greedy, optional, look-ahead part) must be StreamError. (c) instrumented stream: for every k up to '
              'the number of stream operations of the fault-free run, the k-th operation raises / returns one byte short / returns nothing; seek or tell '
              'always fail; for parse and build: StreamError or the fault-free result. distinct = (case, outcome)',
-        fragment='truncation and error class of the integer leaves are theorems; composite discipline is decided by oracle and correspondence (outcome class)',
-        partial=['C06_errors / C06_truncation as inductions over the fragment are not yet proved', 'the stream fault plans exist only in the harness (Python), not in model/Stream.v'])
+        fragment='parse_only_construct_errors / truncation_fragment: every construct of the closed sequential fragment, every input / every strict '
+                 'prefix of what it builds; dep_parse_only_construct_errors / dep_truncation: the same for the dependent fragment (sizes and '
+                 'Switch / IfThenElse choices read from earlier integer fields), props/C06.v',
+        partial=['outside frag / dfrag the error class is decided by oracle and correspondence (outcome class)',
+                 'the stream fault plans exist only in the harness (Python), not in model/Stream.v'])
 
 
 def replay(payload):
